@@ -198,7 +198,9 @@ impl<L: Language, N: Analysis<L>> EGraph<L, N> {
         let mut i = self.find_applied_id(i_orig);
         // i.m :: slots(i) -> X
         // i_orig.m :: slots(i_orig) -> X
-        if !i.slots().is_subset(&enode.slots()) {
+        // a shrink can make further slots of the class redundant (the e-node may mention the
+        // class itself), hence we repeat until the e-node covers all slots of its class.
+        while !i.slots().is_subset(&enode.slots()) {
             #[cfg(slotted_egraphs_verif)]
             crate::verif::probe("shrink_in_upwards_merge");
             self.handle_shrink_in_upwards_merge(src_id);
